@@ -7,7 +7,7 @@ mkdir -p $D
 cp $SRC/patch.diff $D/patch.diff
 if [ -f $SRC/demo_test.go ]; then cp $SRC/demo_test.go $D/demo_test.go.txt; else cp $SRC/demo/main.go $D/demo_test.go.txt 2>/dev/null; fi
 cp $SRC/demo_path.txt $SRC/demo_cmd.txt $D/
-sed -i "s#/tmp/wt2/[A-Za-z0-9_-]*#/tmp/wt/X#g" $D/demo_cmd.txt
+sed -i "s#/tmp/wt[0-9]*/[A-Za-z0-9_-]*#/tmp/wt/X#g" $D/demo_cmd.txt
 python3 - "$SRC/meta.json" "$D/meta.json" "$ID" "$V" <<'PY'
 import json,sys
 src,dst,pid,v=sys.argv[1:5]
